@@ -1,5 +1,6 @@
 import Ufo2ftModel.Props.Flatten
 import Ufo2ftModel.Props.Reverse
+import Ufo2ftModel.Props.Propagate
 import Ufo2ftModel.Spec.C15
 /-! Property C15: the theorems, assembled from the shared geometry proofs
     (Props/Geom, Props/Reverse, Props/Render, Props/Flatten). -/
@@ -181,5 +182,19 @@ example : Good exGs exRank := by
       rcases hp with rfl | rfl | rfl <;> simp
     · intro c hc; cases hc
     · intro c hc; cases hc
+
+end Ufo2ft.C15
+
+namespace Ufo2ft.C15
+open Ufo2ft
+
+/-- **C15 (anchor propagation never overrides)**: after PropagateAnchorsFilter (any include predicate) every glyph has the same
+    outline, components and metrics, and its original anchors unchanged and still first; propagated anchors come after them. -/
+theorem C15_propagate_no_override (marks : List String) (incl : String → Bool) (gs : GlyphSet) (st : FState)
+    (h : runFilter (propagateStep marks) incl gs = .ok st) : AnchExt st.gs gs := by
+  unfold runFilter at h
+  cases ho : orderedGlyphs gs with
+  | error e => rw [ho] at h; cases h
+  | ok order => rw [ho] at h; exact propagateLoop_ext marks incl order ⟨gs, [], []⟩ st h
 
 end Ufo2ft.C15
